@@ -29,7 +29,28 @@ type apiServer struct {
 	client *client.PcClient
 }
 
+// ginErrors collects what gin's recovery middleware writes (panic value and
+// stack of a handler that panicked), so that a 5xx can be explained.
+type lockedBuf struct {
+	mu sync.Mutex
+	b  []byte
+}
+
+func (l *lockedBuf) Write(p []byte) (int, error) {
+	l.mu.Lock()
+	l.b = append(l.b, p...)
+	if len(l.b) > 1<<20 {
+		l.b = l.b[len(l.b)-(1<<19):]
+	}
+	l.mu.Unlock()
+	return len(p), nil
+}
+func (l *lockedBuf) String() string { l.mu.Lock(); defer l.mu.Unlock(); return string(l.b) }
+
+var ginErrors = &lockedBuf{}
+
 func startAPI(env *sim.Env) *apiServer {
+	gin.DefaultErrorWriter = ginErrors
 	engine := api.InitRoutes(false, api.NewPcApi(env.Runner))
 	srv := httptest.NewServer(engine)
 	addr := srv.Listener.Addr().(*net.TCPAddr)
